@@ -26,7 +26,7 @@ Inductive pc :=
 (* CacheFactory.cull *)
 | U192 | U193 | U195 | U196 | U197 | U198 | U200 | U201 | U202 | U204 | U205 | U209 | U210 | U214 | U216
 (* SQLObject.expire; CacheSet.expire; CacheFactory.expire *)
-| X1070 | X1072 | X1074 | X1078 | X1079 | SE325 | SE326 | SE327 | SE328
+| X1072 | X1074 | X1078 | X1079 | SE325 | SE326 | SE327 | SE328
 | E232 | E234 | E235 | E236 | E237 | E238 | E239 | E241 | X1083
 (* CacheSet.weakrefAll; CacheFactory.expireAll *)
 | SW364 | SW367 | SW368 | A248 | A250 | A251 | A252 | A253 | A254 | A256
@@ -382,7 +382,7 @@ Definition start_op (s : state) (t : nat) (th : thread) (o : op) : option state 
   | Create => goto s t th C1397
   | Expire t' k =>
       match nth k (t_slots (s_thr s t')) RNone with
-      | RObj o _ _ => goto s t (set_self th (Some o)) X1070
+      | RObj o _ _ => goto s t (set_self th (Some o)) X1072
       | _ => Some (put_thr s t (finish th RNone))
       end
   | XAll => goto s t th SW364
@@ -524,8 +524,8 @@ Definition step (s : state) (t : nat) : option state :=
             end
   | U214 => goto (with_co s (Nat.modulo (S (s_co s)) (s_frac s))) t th U216
   | U216 => release s t th (set_pc (set_cobj th None) (match t_cret th with RetGet => F104 | RetCreated => K181a end))
-  (* ---- expire *)
-  | X1070 => if o_expired (s_heap s (self_of th)) then expire_return s t th else goto s t th X1072
+  (* ---- expire (since ad272ca: the flag is tested under the write lock; an instance that is expired already
+     does not purge the entry of its id again) *)
   | X1072 => match o_wlock (s_heap s (self_of th)) with
              | None => goto (with_heap s (set_obj_wlock (s_heap s) (self_of th) (Some t)) (s_nextobj s)) t th X1074
              | Some _ => None                         (* blocked on the instance's write lock *)
@@ -581,7 +581,7 @@ Definition step (s : state) (t : nat) : option state :=
   (* ---- sqlmeta.expireAll *)
   | Z681 => goto s t (set_mex th true false) SW364
   | Z682 => if t_mexl th then mex_next s t th else goto s t th SL375
-  | Z683 => goto s t th X1070
+  | Z683 => goto s t th X1072
   | SL375 => goto s t th SL380
   | SL380 => goto s t th (if s_present s then SL381 else SL383)
   | SL381 => goto s t th L272
